@@ -24,6 +24,9 @@ type loopInfo struct {
 	modHeaps []string
 	modTop   bool
 	pcPre    Term
+	// direct: heaps written by instructions of the loop body itself (stores,
+	// map updates, append/copy/delete) as opposed to heaps written by callees
+	direct map[string]bool
 }
 
 // rangeIndexAlloc returns the hidden index variable of a "for range" loop: the
@@ -171,6 +174,7 @@ func (fr *Frame) loopWrites(li *loopInfo) (cells map[ssa.Value]bool, heaps map[s
 	vc := fr.vc
 	cells = map[ssa.Value]bool{}
 	heaps = map[string]bool{}
+	li.direct = map[string]bool{}
 	for b := range li.body {
 		for _, in := range b.Instrs {
 			switch in := in.(type) {
@@ -192,6 +196,7 @@ func (fr *Frame) loopWrites(li *loopInfo) (cells map[ssa.Value]bool, heaps map[s
 				}
 				for _, h := range vc.storeHeaps(in.Addr) {
 					heaps[h] = true
+					li.direct[h] = true
 				}
 			case *ssa.Alloc:
 				if fr.cellAlloc[in] {
@@ -213,6 +218,7 @@ func (fr *Frame) loopWrites(li *loopInfo) (cells map[ssa.Value]bool, heaps map[s
 			case *ssa.MapUpdate:
 				mt := in.Map.Type()
 				heaps[mapHasName(mt)], heaps[mapValName(mt)], heaps[mapLenName(mt)] = true, true, true
+				li.direct[mapHasName(mt)], li.direct[mapValName(mt)], li.direct[mapLenName(mt)] = true, true, true
 			case *ssa.Convert:
 				if sl, ok := in.Type().Underlying().(*types.Slice); ok {
 					allocs = true
@@ -234,8 +240,13 @@ func (fr *Frame) loopWrites(li *loopInfo) (cells map[ssa.Value]bool, heaps map[s
 				if e.top {
 					top = true
 				}
+				_, isBuiltin := in.Call.Value.(*ssa.Builtin)
 				for h := range e.heaps {
 					heaps[h] = true
+					if isBuiltin {
+						// append / copy / delete executed by the loop itself
+						li.direct[h] = true
+					}
 				}
 				if e.allocs || len(e.heaps) > 0 {
 					allocs = true
@@ -423,7 +434,14 @@ func (fr *Frame) enterLoop(li *loopInfo, pre *State, pc Term) *State {
 		sort.Strings(hn)
 		for _, h := range hn {
 			if vc.specs.isPrivateHeap(h) || vc.specs.isImmutableHeap(h) {
-				vc.havocHeapKeepOld(st, pre, h, pc)
+				if li.direct[h] {
+					// the loop body itself writes this heap: objects that
+					// existed before the loop may change (only the invariants
+					// say what is preserved)
+					vc.havocHeap(st, h)
+				} else {
+					vc.havocHeapKeepOld(st, pre, h, pc)
+				}
 			}
 		}
 	} else {
@@ -457,7 +475,11 @@ func (fr *Frame) enterLoop(li *loopInfo, pre *State, pc Term) *State {
 			}
 		} else {
 			for _, h := range hn {
-				vc.havocHeapKeepOld(st, pre, h, pc)
+				if li.direct[h] {
+					vc.havocHeap(st, h)
+				} else {
+					vc.havocHeapKeepOld(st, pre, h, pc)
+				}
 			}
 		}
 	}
